@@ -20,14 +20,19 @@ def base():
     return m
 
 
-STATES = ["empty", "loaded", "solved-exact", "solved-primal", "solved-dual", "edited-after-solve", "grown"]
+STATES = ["empty", "loaded", "solved-exact", "solved-primal", "solved-dual", "edited-after-solve", "grown", "norange-solved"]
 
 
 def setup(state):
     if state == "empty":
         return ["create p0 e min"], 0, 0
     m = base()
+    if state == "norange-solved":
+        # no range row anywhere: the problem carries no array of ranges (the MPS writer writes no RANGES section)
+        m.rows[2].sense, m.rows[2].range = "G", 0
     L = model.script_build(m, "p0") + ["set_param p0 5 3000"]
+    if state == "norange-solved":
+        L += ["opt_dual p0"]
     if state == "solved-exact":
         L += ["solve_exact p0 dual b0 xy"]
     elif state == "solved-primal":
@@ -80,7 +85,8 @@ def probes(R, C, state):
               ("get_bound:col", "get_bound p0 %s L" % v), ("get_bound:colU", "get_bound p0 %s U" % v),
               ("get_bounds_list:1", "get_bounds_list p0 1 %s" % v), ("get_obj_list:1", "get_obj_list p0 1 %s" % v),
               ("get_columns_list:1", "get_columns_list p0 1 %s" % v), ("delete_cols:1", "delete_cols p0 1 %s" % v),
-              ("change_bounds:1", "change_bounds p0 1 %s B 3" % v), ("pivotin_col", "pivotin_col p0 1 %s" % v)]
+              ("change_bounds:1", "change_bounds p0 1 %s B 3" % v), ("pivotin_col", "pivotin_col p0 1 %s" % v),
+              ("strongbranch:1", "strongbranch p0 1 %s" % v)]
         if R > 0:
             P += [("change_coef:col", "change_coef p0 0 %s 5" % v), ("get_coef:col", "get_coef p0 0 %s" % v)]
         P += [("add_row:colind", "add_row p0 1 L NEWR 1 %s 3" % v), ("add_ranged_row:colind", "add_ranged_row p0 1 R 2 NEWR 1 %s 3" % v),
@@ -89,7 +95,11 @@ def probes(R, C, state):
         if C > 0:
             P += [("delete_cols:last", "delete_cols p0 2 0 %s" % v), ("delete_cols:first", "delete_cols p0 2 %s 0" % v),
                   ("get_bounds_list:last", "get_bounds_list p0 2 0 %s" % v), ("get_obj_list:first", "get_obj_list p0 2 %s 0" % v),
-                  ("get_columns_list:last", "get_columns_list p0 2 0 %s" % v), ("change_bounds:last", "change_bounds p0 2 0 L 7/3 %s U 3" % v)]
+                  ("get_columns_list:last", "get_columns_list p0 2 0 %s" % v), ("change_bounds:last", "change_bounds p0 2 0 L 7/3 %s U 3" % v),
+                  ("strongbranch:last", "strongbranch p0 2 1 %s" % v), ("strongbranch:last3", "strongbranch p0 3 0 1 %s" % v)]
+    if R > 0:
+        # a range value for a row that is not a range row
+        P += [("change_range:not-a-range-row", "change_range p0 0 2"), ("change_range:not-a-range-row-E", "change_range p0 1 7/3")]
     # names
     P += [("delete_named_row:unknown", "delete_named_row p0 nosuchrow"), ("delete_named_column:unknown", "delete_named_column p0 nosuchcol"),
           ("get_row_index:unknown", "get_row_index p0 nosuchrow"), ("get_column_index:unknown", "get_column_index p0 nosuchcol"),
@@ -196,7 +206,7 @@ def gen_cases(tier):
     for st in STATES:
         L, R, C = setup(st)
         for k, (lab, line) in enumerate(probes(R, C, st)):
-            lines = L + ["dumpx p0", "dumpsol p0 1"] + line.split("\n") + ["dumpx p0", "dumpsol p0 1", "storecheck p0"]
+            lines = L + ["writehash p0", "dumpx p0", "dumpsol p0 1"] + line.split("\n") + ["dumpx p0", "dumpsol p0 1", "writehash p0", "storecheck p0"]
             cases.append(run.Case("C07-%s-%d" % (st, k), lines, dict(state=st, label=lab, probe=line, nset=len(L))))
     return cases
 
@@ -230,6 +240,9 @@ def judge(case, res):
     if a != b:
         diff = [k for k in set(a) | set(b) if a.get(k) != b.get(k)]
         V.append(("C07|%s|problem-changed" % lab, "state %s: `%s` (rc=%r) changed the problem: %s" % (st, case.meta["probe"], pev.get("rc"), sorted(diff)[:8])))
+    wh = res.evs("writehash")
+    if len(wh) == 2 and strip(wh[0]) != strip(wh[1]):
+        V.append(("C07|%s|written-text-changed" % lab, "state %s: `%s` (rc=%r) changed what the writers put into a file: %s -> %s" % (st, case.meta["probe"], pev.get("rc"), strip(wh[0]), strip(wh[1]))))
     a, b = strip(ds[0]), strip(ds[1])
     if a != b:
         diff = [k for k in set(a) | set(b) if a.get(k) != b.get(k)]
